@@ -686,6 +686,175 @@ def g_pow5_thresholds(F, rng, tier):
     return out[:: 2 if tier == "quick" else 1]
 
 
+def pow10_thresholds(F):
+    """(w, s): w next to 2^k / 10^s for s = 1..9 (the small-power step of a two-table power-of-ten scheme) and every k for
+    which such a w has 17..19 digits: w x 10^s sits just below / at / above a power of two, beyond 64 bits - where a
+    "round the wide product once" step carries out of its word"""
+    out = []
+    for s in range(1, 10):
+        for k in range(58, 95):
+            t = (1 << k) // 10 ** s
+            for w in (t - 1, t, t + 1):
+                if 10 ** 16 <= w < 10 ** 19:
+                    out.append((w, s))
+    return out
+
+
+def g_pow10_thresholds(F, rng, tier):
+    """G29: the (w, s) above as parse inputs w e q for q = s (mod 10) over the whole exponent range of the format"""
+    out = []
+    q = tier == "quick"
+    for (w, s) in pow10_thresholds(F):
+        qs = [qq for qq in range(F.p10_lo, F.p10_hi + 1) if (qq - s) % 10 == 0]
+        for qq in (rng.sample(qs, min(len(qs), 6)) if q else qs):
+            out.append(mk(F.name, str(w), "", qq, "G29:pow10-threshold"))
+    return out
+
+
+def lemire_refined(F, rng, per_q, tries, nds=(15, 16, 16, 17)):
+    """(w, q, event) found against the DEFINITION of Eisel-Lemire's product (p5_128): inputs for which the first 64 x 64
+    product leaves the bits below the precision all ones, so that the second multiplication (with the low table word)
+    runs - and either carries into the high word ("carry": the result depends on it) or not.  One in ~2000 random w for
+    f64; per decimal exponent, since a shortcut can be wrong for one q only (5^28 is the first power that does not fit
+    in 64 bits ...).  19-digit w >= 2^63 are CONSTRUCTED (step w until the high word ends in ones), shorter ones
+    (what a shortest rendering looks like) are found by rejection sampling."""
+    out = []
+    precision = F.mbits + 3
+    mask = U64 >> precision
+    if mask.bit_length() > 14:
+        return out                                     # f32: 2^-37 per draw, not reachable by sampling
+    for q in range(max(F.p10_lo - 2, -342), min(F.p10_hi + 2, 308) + 1):
+        T = p5_128(q)
+        hi5, lo5 = T >> 64, T & U64
+        got = {"carry": 0, "nocarry": 0}
+
+        def event(w):
+            z = w << (64 - w.bit_length())
+            first = z * hi5
+            if (first >> 64) & mask != mask:
+                return None
+            return "carry" if (first & U64) + ((z * lo5) >> 64) > U64 else "nocarry"
+
+        # constructed: w in [2^63, 10^19), z = w
+        for _ in range(4 * per_q + 4):
+            w = rng.randrange(1 << 63, 10 ** 19 - 2000)
+            first = w * hi5
+            fh = first >> 64
+            target = (fh | mask) if (fh | mask) >= fh else fh
+            need = ((target << 64) - first + hi5 - 1) // hi5          # smallest step that lifts the high word to target
+            for w2 in (w + need, w + need + 1, w + need - 1):
+                ev = event(w2) if (1 << 63) <= w2 < 10 ** 19 else None
+                if ev and got[ev] < (per_q if ev == "carry" else 1):
+                    got[ev] += 1
+                    out.append((w2, q, ev))
+                    break
+        got = {"carry": 0, "nocarry": 0}
+        for _ in range(tries):
+            nd = rng.choice(nds)
+            w = rng.randrange(10 ** (nd - 1), 10 ** nd)
+            ev = event(w)
+            if ev is None:
+                continue
+            if got[ev] < (per_q if ev == "carry" else 1):
+                got[ev] += 1
+                out.append((w, q, ev))
+            if got["carry"] >= per_q and got["nocarry"] >= 1:
+                break
+    return out
+
+
+def g_lemire_refined(F, rng, tier):
+    """G30: the (w, q) above as parse inputs"""
+    q = tier == "quick"
+    return [mk(F.name, str(w), "", qq, "G30:refine-" + ev) for (w, qq, ev) in lemire_refined(F, rng, 3 if q else 10, 8000 if q else 40000)]
+
+
+def wide_exact_products(F, rng, quick):
+    """(w, q), 1 <= q <= 27, w < 10^19, with P = w x 5^q EXACT and 65..(p + 62) bits long, whose bits below the p-bit
+    significand are a chosen pattern: a tie plus or minus a tiny delta (so that Eisel-Lemire's high word shows the exact
+    halfway pattern while the LOW word is small but not zero), both parities of the significand.  Solved by
+    w = pattern x (5^q)^-1 mod 2^(k+1), k = L - p"""
+    out = []
+    for qq in range(1, 28):
+        f5 = 5 ** qq
+        for L in (range(65, F.p + 62, 5) if quick else range(65, F.p + 62)):
+            k = L - F.p
+            if k + 1 > 62:
+                continue
+            # w above 2^p: the fast path declines
+            lo_w, hi_w = max((1 << F.p) + 1, -(-(1 << (L - 1)) // f5)), min(10 ** 19 - 1, ((1 << L) - 1) // f5)
+            if hi_w - lo_w < (1 << (k + 1)):
+                continue
+            half = 1 << (k - 1)
+            small = max(1, L - 74)                         # delta below 2^small keeps the low product word below 2^54
+            deltas = [1, 2, (1 << small) - 1, 1 << small, (3 << small) >> 1, (1 << (small + 1)) - 1, (1 << max(0, small - 1)) + 1,
+                      rng.randrange(1, 1 << small), 1 << min(k - 2, small + 6), -1, -rng.randrange(1, 1 << small)]
+            for par in (0, 1):
+                for dl in (deltas if not quick else rng.sample(deltas, 4)):
+                    pat = ((par << k) | half) + dl
+                    mod = 1 << (k + 1)
+                    w0 = (pat * pow(f5, -1, mod)) % mod
+                    tmin = -(-(lo_w - w0) // mod)
+                    tmax = (hi_w - w0) // mod
+                    if tmax < tmin:
+                        continue
+                    picks = [w0 + rng.randrange(tmin, tmax + 1) * mod]
+                    tshort = (10 ** 18 - 1 - w0) // mod                 # also a solution with at most 18 digits (10 w fits in 64 bits)
+                    if tshort >= tmin:
+                        picks.append(w0 + rng.randrange(tmin, min(tmax, tshort) + 1) * mod)
+                    for w in picks:
+                        assert (w * f5) % mod == pat % mod and (w * f5).bit_length() == L
+                        out.append((w, qq))
+    return out
+
+
+def g_wide_exact_products(F, rng, tier):
+    """G31: the (w, q) above as parse inputs, and the same value with the power written out (w followed by q zeros, a
+    long integer: the big-integer path decides it) - a C09 / C10 pair in one corpus"""
+    out = []
+    for (w, qq) in wide_exact_products(F, rng, tier == "quick"):
+        out.append(mk(F.name, str(w), "", qq, "G31:wide-product"))
+        out.append(mk(F.name, str(w) + "0" * qq, "", 0, "G31:wide-product-long"))
+    return out
+
+
+def g_slow_grid(F, rng, tier):
+    """G32: the big-integer comparison of the digits with b+h, for every pair (binade E of the value, number h of digits
+    after the decimal point): the decimals with exactly h fraction digits just below and just above (and, when it is
+    representable, at) the midpoint above a float in [2^E, 2^(E+1)), for a significand near the bottom and near the top of
+    the binade.  h and E determine the power of five and the shift with which b+h is scaled - a native-width shortcut for
+    "small" scalings is wrong for one such pair only.  Inputs with more than 19 digits in total."""
+    out = []
+    q = tier == "quick"
+    p = F.p
+    Es = range(-20, 90) if q else range(-60, 140)
+    hs = range(1, 41) if q else range(1, 61)
+    if F.name != "f64":
+        Es = range(-20, 60) if q else range(-40, 100)
+        Es = range(Es.start, Es.stop, 2) if q else Es
+    for E in Es:
+        for h in hs:
+            for frac in ((0.02, 0.93) if q else (0.02, 0.45, 0.93)):
+                m = (1 << (p - 1)) + int(frac * (1 << (p - 1))) + rng.randrange(0, 1 << 16)
+                m = (m & ~1) | rng.getrandbits(1) if not q else m & ~1      # quick: even m (a lost tie is visible)
+                num = (2 * m + 1) * 10 ** h
+                sh = E - p                                                   # midpoint = (2m+1) 2^(E-p)
+                if sh >= 0:
+                    fl, exact = num << sh, True
+                else:
+                    fl, exact = num >> -sh, num & ((1 << -sh) - 1) == 0
+                cands = [("below", fl - 1 if exact else fl), ("above", fl + 1)] + ([("tie", fl)] if exact else [])
+                for (name, v) in cands:
+                    ds = str(v)
+                    if len(ds) <= 19 or v <= 0:
+                        continue
+                    if len(ds) > h and rng.random() < 0.5:
+                        out.append(mk(F.name, ds[:-h], ds[-h:], 0, "G32:slow-grid-" + name))
+                    else:
+                        out.append(mk(F.name, ds, "", -h, "G32:slow-grid-" + name))
+    return out
+
+
 def g_limb_crossers(F, rng, tier):
     """G24: halfway points between SUBNORMALS m and m+1 for which an intermediate of the stepped power (2m+1) x 5^(135 i)
     lands just above a limb boundary 2^(64 j) (its top limb is a small number): there the partial products of the long
@@ -1173,6 +1342,16 @@ def g_moderate(F, rng, tier):
         add(w, qq, False, "G3:exact-product")
         add(w, qq, True, "G3:exact-product-trunc")
         add(w - 1, qq, True, "G3:exact-product-trunc")
+    for (w, sm) in pow10_thresholds(F):
+        qs_ = [qq for qq in range(F.p10_lo, F.p10_hi + 1) if (qq - sm) % 10 == 0]
+        for qq in (rng.sample(qs_, min(len(qs_), 8)) if q else qs_):
+            add(w, qq, False, "G3:pow10-threshold")
+        add(w, rng.choice(qs_), True, "G3:pow10-threshold-trunc")
+    for (w, qq, ev) in lemire_refined(F, rng, 1 if q else 4, 6000 if q else 30000):
+        add(w, qq, False, "G3:refine-" + ev)
+    for (w, qq) in wide_exact_products(F, rng, q):
+        add(w, qq, False, "G3:wide-product")
+        add(w, qq, True, "G3:wide-product-trunc")
     # exact ties with <= 19 digits: every q of the tie window (+-2), both parities of the lower neighbour
     for (w, qq) in short_ties(F, rng, 2 if q else 8):
         add(w, qq, False, "G3:window")
@@ -1287,6 +1466,23 @@ def g_chains(F, rng, tier):
                    {"int": str(w), "frac": "", "exp": qq},
                    {"int": str(w), "frac": "0" * 23 + "1", "exp": qq}]
             out.append({"kind": "chain", "fmt": F.name, "tag": "C09:fast-seam", "members": mem})
+    # short inputs whose exact product with 5^q is a tie +- a tiny delta beyond 64 bits (G31), between the long integers
+    # one below and one above them (decided by the big integers), and next to the same value written out
+    for (w, qq) in wide_exact_products(F, rng, q)[:: 2 if q else 1]:
+        v = w * 10 ** qq
+        mem = [{"int": str(v - 1), "frac": "", "exp": 0}, {"int": str(w), "frac": "", "exp": qq}, {"int": str(v), "frac": "", "exp": 0},
+               {"int": str(v + 1), "frac": "", "exp": 0}]
+        if w < 10 ** 18:
+            # the same value with one zero moved into the significand: the 128-bit product is the same number, normalised
+            # differently (equal values may stand next to each other in a chain, in either order)
+            w10 = {"int": str(w) + "0", "frac": "", "exp": qq - 1}
+            mem = [mem[0], w10, mem[1], w10] + mem[2:]
+        out.append({"kind": "chain", "fmt": F.name, "tag": "C09:wide-product", "members": mem})
+    # inputs for which Eisel-Lemire's second multiplication carries (G30), between their 25-digit neighbours
+    for (w, qq, ev) in lemire_refined(F, rng, 1, 4000 if q else 20000):
+        if ev == "carry":
+            mem = [{"int": str(w - 1), "frac": "9" * 6, "exp": qq}, {"int": str(w), "frac": "", "exp": qq}, {"int": str(w), "frac": "0" * 5 + "1", "exp": qq}]
+            out.append({"kind": "chain", "fmt": F.name, "tag": "C09:refine-carry", "members": mem})
     # every decade, first to last (and beyond): 1eq < 2eq < ... < 9eq < 1e(q+1); short forms only (what a caller writes)
     for qq in range(F.p10_lo - 3, F.p10_hi + 3):
         mem = [{"int": str(d), "frac": "", "exp": qq} for d in range(1, 10)] + [{"int": "1", "frac": "", "exp": qq + 1}, {"int": "15", "frac": "", "exp": qq}]
@@ -1399,6 +1595,10 @@ def g_groups(F, rng, tier):
         ks = sorted(set([1, 18] + rng.sample(range(2, 18), 3))) if q else range(1, 19)
         mem = [{"int": "1", "frac": "", "exp": n}] + [{"int": "1" + "0" * k, "frac": "", "exp": n - k} for k in ks]
         out.append({"kind": "group", "fmt": F.name, "tag": "C10:pow10", "members": mem})
+    for (w, qq) in wide_exact_products(F, rng, q)[:: 3 if q else 1]:
+        mem = [{"int": str(w), "frac": "", "exp": qq}, {"int": str(w) + "0" * qq, "frac": "", "exp": 0}, {"int": str(w) + "0", "frac": "", "exp": qq - 1},
+               {"int": str(w)[:1], "frac": str(w)[1:], "exp": qq + len(str(w)) - 1}]
+        out.append({"kind": "group", "fmt": F.name, "tag": "C10:wide-product", "members": mem})
     # the decimal point moved by hundreds to tens of thousands of places, compensated by the exponent (run-length: cheap):
     # 0.000..0ddd e(+n) = ddd = ddd000..0 e(-n), for n around every bound an implementation may clamp at
     for ds in (("1", "9007199254740993") if q else ("1", "25", "9007199254740993", "17976931348623157", "49406564584124654")):
